@@ -409,11 +409,46 @@ func init() {
 			ops = append(ops, "c", "o")
 			g.emit("tb %d %d %s", o, thr, strings.Join(ops, ","))
 		}
+		// whole words filled (so that Offset really advances and the reclaim branch runs) while a long
+		// live tail is stored: a far-ahead bit first, then the front words in some order
+		for rep := 0; rep < g.n(120, 1200); rep++ {
+			o := int64(64 * g.intn(4))
+			thr := []int64{64, 128, 192, 640}[g.intn(4)]
+			far := o + int64(64*(2+g.intn(40))) + int64(g.intn(64))
+			ops := []string{fmt.Sprintf("s%d", far)}
+			if g.intn(3) == 0 {
+				ops = append(ops, fmt.Sprintf("s%d", far+int64(64*g.intn(30))+1))
+			}
+			nw := 1 + g.intn(6)
+			order := g.r.Perm(nw)
+			if g.intn(2) == 0 {
+				sort.Ints(order)
+			}
+			for _, w := range order {
+				a := o + int64(64*w)
+				if g.intn(2) == 0 {
+					ops = append(ops, fmt.Sprintf("f%d:%d", a, a+64))
+				} else {
+					ops = append(ops, fmt.Sprintf("F%d:%d", a, a+64))
+				}
+				if g.intn(3) == 0 {
+					ops = append(ops, "o", fmt.Sprintf("h%d", far), fmt.Sprintf("g%d", far), fmt.Sprintf("h%d", o+int64(g.intn(64*nw))))
+				}
+				if g.intn(4) == 0 {
+					ops = append(ops, "c")
+				}
+			}
+			ops = append(ops, "o", fmt.Sprintf("h%d", far), fmt.Sprintf("g%d", far), fmt.Sprintf("h%d", far-1), fmt.Sprintf("g%d", o), "c", "o", fmt.Sprintf("h%d", far))
+			g.emit("tb %d %d %s", o, thr, strings.Join(ops, ","))
+		}
 		// the real reclaim threshold (1024 words) crossed front-to-back and back-to-front
 		g.emit("tb 0 65536 f0:65600,o,h5,h65599,s65700,o,h65600,h65700,c,o")
 		g.emit("tb 64 65536 F64:4096,o,h64,h4095,g100,c,o")
+		// ... and crossed while more than 1024 words are still live
+		g.emit("tb 0 65536 s134417,s140000,f0:65536,o,h134417,g134417,h140000,h65536,f65536:65600,o,h134417,c,o,h140000")
 		if g.thorough() {
 			g.emit("tb 0 65536 F0:65664,o,h0,h65663,c,o,f65664:131300,o,c,o")
+			g.emit("tb 128 65536 s200000,F128:65664,o,h200000,g199999,f65664:131200,o,h200000,c,o")
 		}
 	}
 }
